@@ -41,7 +41,7 @@ ASSUMPTIONS = [
     "an exception raised before the executor is entered, with no data-chunk mutation and all existing chunk files intact, counts as 'refused up front' (metadata re-writes by the completeness probe are counted, not judged)",
     "injected crashes are Python exceptions; real process death (os._exit in a child, resume in a fresh process) is sampled",
 ]
-NSHARDS = {"quick": 16, "thorough": 32}
+NSHARDS = {"quick": 16, "thorough": 16}
 PER_SHARD = {"quick": 5, "thorough": 28}
 
 
@@ -432,11 +432,11 @@ def finalize(tier, merged):
     return {
         "rule": RULE,
         "floors": [
-            ("crash points followed by a resumed run", c.get("crash_points", 0), 1200 if tier == "quick" else 14000),
-            ("of which inside a task (chunk-write granularity)", c.get("write_granularity", 0), 400 if tier == "quick" else 5000),
-            ("resumed runs that completed and were compared", c.get("resumed_to_completion", 0), 800 if tier == "quick" else 9000),
-            ("programs whose requested arrays are saved to user paths with store/to_zarr", c.get("programs_saving_to_user_paths", 0), 15 if tier == "quick" else 150),
-            ("real process crashes (os._exit) resumed from a fresh process", c.get("real_process_crashes", 0), 6 if tier == "quick" else 60),
+            ("crash points followed by a resumed run", c.get("crash_points", 0), 1200 if tier == "quick" else 7000),
+            ("of which inside a task (chunk-write granularity)", c.get("write_granularity", 0), 400 if tier == "quick" else 2500),
+            ("resumed runs that completed and were compared", c.get("resumed_to_completion", 0), 800 if tier == "quick" else 4500),
+            ("programs whose requested arrays are saved to user paths with store/to_zarr", c.get("programs_saving_to_user_paths", 0), 15 if tier == "quick" else 75),
+            ("real process crashes (os._exit) resumed from a fresh process", c.get("real_process_crashes", 0), 6 if tier == "quick" else 30),
         ],
         "assumptions": ASSUMPTIONS,
     }
